@@ -79,6 +79,8 @@ static void do_op(Cmd *c) {
         cc_treetable_foreach_value(tt, cb_record); o("st=- "); o_cb(); o(" ");
     } else if (is_op(c, "it_new")) {
         cc_treetable_iter_init(&it, tt); have_it = 1; o("st=- ");
+    } else if (is_op(c, "it_drop")) {
+        have_it = 0; o("st=- ");
     } else if (is_op(c, "it_next")) {
         if (!have_it) o("st=- noiter ");
         else { CC_TreeTableEntry e = { PTR(777777), PTR(777777) };
